@@ -19,6 +19,8 @@ PAYLOADS = [
     "'+%s+'" % SET, '"+%s+"' % SET, "\\'+%s+\\'" % SET, "\\\\'+%s+'" % SET, "'''+%s+'''" % SET, '\n%s\n#' % SET, "')\n        %s\n        ('" % SET,
     '{%s}' % SET, "'+str(%s)+'" % SET, "x' if %s else '" % SET, "'%s'" % SET, "\\", "\\'", "'\\", "a'\nb", "'; %s; '" % SET, "__import__ ('os').system ('true')",
     "' + self.%s + '" % CANARY, "{titles}", "{0}", "%(x)s", "' # ", '" # ', "\\x27+%s+\\x27" % SET, "\\N{APOSTROPHE}+%s" % SET,
+    # wildcard literals (PatternToken) with backslashes; texts that look like formulas after a blank
+    'a?\\n', '*\\t', '?\\\\', '*\\x41', 'a*\\', '?\\', '~*\\', '*\\"', ' =1+1', '\n="a"&"b"', '  =A1*2 ', '\t=%s' % SET, ' =%s' % SET,
 ]
 
 
@@ -124,6 +126,10 @@ def one(chk, s, const):
         chk.count('rejected:' + kind)
         if kind not in ('Parser', 'Cell', 'Safety'):
             chk.violation({'why': 'translation of planted text ends with a foreign exception', 'impl': 'E' + kind, 'string': repr(s), 'stream': 'translate'})
+        else:
+            # a constant text cell and a formula that is one text literal are always translatable: a rejection means the text was not carried as data
+            chk.violation({'why': 'a workbook of one constant text and one plain text literal is rejected: the text is not carried as inert data', 'impl': 'E' + kind,
+                           'error': str(e)[:200], 'string': repr(s), 'stream': 'rejected-literal'})
         return
     verify(chk, text, sheets, [(s, const)], cols=2)
 
@@ -205,6 +211,9 @@ def facade(chk, strings, rng):
     try:
         pool = [s for s in strings if s and all(c >= ' ' or c in '\n\t' for c in s) and '\r' not in s]   # openpyxl refuses other control characters
         rng.shuffle(pool)
+        # texts that look like formulas after leading whitespace are always among those read through the real file reader
+        always = [x for x in PAYLOADS if x.lstrip().startswith('=') and x in pool]
+        pool = always + [x for x in pool if x not in always]
         for k in range(0, min(len(pool), 60), 6):
             batch = pool[k:k + 6]
             rows = [[(s if not s.startswith('=') else 'x' + s), '=' + excel_literal(s)] for s in batch]
